@@ -5,6 +5,11 @@ HERE = os.path.dirname(os.path.dirname(os.path.abspath(__file__)))
 
 # id -> (technique, level text, level note, design ref)
 CHECKS = {
+ "C06": (
+  "hypothesis-generated synthetic BAM/VCF/FASTA/BED datasets known by construction + differential against an independent CIGAR-walking pileup; fault injection of reference disagreement",
+  "Exploration: generated datasets (CIGARs with indels/clips/skips, flags, MAPQ on/around the threshold, overlapping mates, several read groups and samples per file, SM/ID keys, all keep-flag combinations): every (file, locus, sample) read matrix equals the reference pileup row-by-row by read name; the encoded matrix, RCOUNT, SNVDP, DP, RCALLS and the de-duplicated read distributions are recomputed; the FORMAT fields printed by assemble are compared; datasets whose FASTA or alignment reference disagrees with the SNV file at a covered SNV must end in an error without a record for that locus.",
+  "htslib fetch overlap semantics; secondary alignments kept; constant base quality 30; query length >= 2 (pysam 0.24 mis-reads 1-base quality strings); datasets <= 3 loci, <= 3 samples, <= 25 reads per read group and locus.",
+  "DESIGN.md §4 C06"),
  "C09": (
   "model-based testing of the array map against a dict (generated op lists), generated sampler move histories with a shared tiny cache and per-step invariant, trajectory differential across cache thresholds, monitored cached-likelihood wrappers in NUMBA_DISABLE_JIT runs, cache-content audit for the pedigree sampler",
   "Exploration: (1) generated set/get histories with tiny sizes (growth + overflow flushes) against a dict model and structural invariants; (2) generated histories of jitted mutation/recombination/dosage sweeps and exchanges on 1-3 chains sharing a small caller-supplied cache: after every move every chain's carried llk equals the recomputed one, and every value left in the cache is audited; (3) assembler traces (all chains) recomputed and bit-identical trajectories for cache thresholds -1/0/100; (4) plain-python runs of the assemble, call and call-pedigree samplers with every return of the cached wrappers re-verified against that sample's own reads; (5) caller-supplied pedigree cache audited after gibbs/MH/swap calls with unequal read counts; call sampler llk trace recomputed.",
